@@ -60,6 +60,12 @@ def histories(r, strings, quick):
             for e2 in ENTRIES:
                 hs.append([(e1, first), (e2, " a b "), (e1, " a b "), (e2, first)])
     hs.append([("module", "a b"), ("thread", " "), ("module", " "), ("thread", "  c  "), ("module", "  c  ")])
+    # a FAILED parse that consumed leading blanks and never reached a token, then queries whose first token is
+    # at offset 0 (a pending head must not survive), on every pair of entry points
+    for e1 in ENTRIES:
+        for ws_fail in ("   ", " '", "\t\n", "  \\", " \u3000", "\n )"):
+            for e2 in ENTRIES:
+                hs.append([(e2, "a"), (e2, "f:b c"), (e1, ws_fail), (e2, "a"), (e1, "a"), (e2, "f:b c"), (e1, "(x)")])
     # a parse that fails in the middle of a construct (open range, open group, open phrase), then probes whose
     # reading could depend on a mode the failed parse left behind
     probes = ["TO~2", "TO:a", "<TO", "TO", "a TO b", "[a TO b]", "x]", "a)", 'a"', "a\nb"]
@@ -67,6 +73,13 @@ def histories(r, strings, quick):
         for opener in ("[a TO", "x:{a TO b", "(a (b", '"abc', "f:[1 TO", "[a TO b] '", "a\nb ("):
             for e2 in ENTRIES:
                 hs.append([(e2, p) for p in probes[:4]] + [(e1, opener)] + [(e2, p) for p in probes])
+    # every string of the shared corpus of malformed and odd-but-legal queries is parsed at least once, through
+    # both entry points (the random histories below only sample the pool)
+    corpus = list(PG.MALFORMED)
+    for i in range(0, len(corpus), 6):
+        chunk = corpus[i:i + 6]
+        hs.append([(ENTRIES[(i // 6 + j) % 2], s) for j, s in enumerate(chunk)] +
+                  [(ENTRIES[(i // 6 + j + 1) % 2], s) for j, s in enumerate(chunk)])
     for _ in range(70 if quick else 500):
         n = r.randrange(1, maxlen + 1)
         hs.append([(r.choice(ENTRIES), r.choice(strings)) for _ in range(n)])
